@@ -302,7 +302,11 @@ class Translator:
             L.append(f"  if (vp_all_done) {{ {G.fname('@' + q['final'])}(); }}")
         L.append("#ifdef VP_WITNESS")
         cov = q.get('cover', 0)
+        L.append("#ifdef VP_MUST_COVER")
+        L.append(f'  __CPROVER_assert(!(vp_all_done && (vp_covered & ({cov}u | VP_MUST_COVER)) == ({cov}u | VP_MUST_COVER)), "witness: required coverage state reachable (must FAIL)");')
+        L.append("#else")
         L.append(f'  __CPROVER_assert(!(vp_all_done && (vp_covered & {cov}u) == {cov}u), "witness: all threads can finish inside the bound (must FAIL)");')
+        L.append("#endif")
         L.append("#endif")
         L.append("  return 0;")
         L.append("}")
